@@ -175,6 +175,7 @@ func startModules() error {
 	reports := make(chan *report)
 	execCnt := 0
 	reportCnt := 0
+	verifEvent("ev:startPassBegin")
 
 	for {
 		waiting := 0
@@ -203,6 +204,7 @@ func startModules() error {
 			rep = <-reports
 			if rep.err != nil {
 				rep.module.NewErrorMessage("start module", rep.err).Report()
+				verifEvent("ev:startPassEnd")
 				return fmt.Errorf("modules: could not start module %s: %w", rep.module.Name, rep.err)
 			}
 			reportCnt++
@@ -211,9 +213,11 @@ func startModules() error {
 			// finished
 			if waiting > 0 {
 				// check for dep loop
+				verifEvent("ev:startPassEnd")
 				return fmt.Errorf("modules: dependency loop detected, cannot continue")
 			}
 			// return last error
+			verifEvent("ev:startPassEnd")
 			return nil
 		}
 	}
